@@ -260,6 +260,7 @@ def main():
     # ---- shared_core.rs: (method, number of lock() calls, inner call) per method
     t = strip_comments(src("src/replication/shared_core.rs"))
     rows = []
+    extra = []
     for m in re.finditer(r"fn\s+(\w+)[^(;{]*\(\s*&self", t):
         name = m.group(1)
         body = fn_body(t[m.start():], name) or ""
@@ -267,7 +268,14 @@ def main():
         inner = re.findall(r"core\s*\.\s*(\w+)\s*\(", body) or re.findall(r"\.lock\(\)\.await\.(\w+)\(", body)
         awaits_between = len(re.findall(r"\.await", body))
         rows.append('("%s", %d, %d, [%s])' % (name, locks, awaits_between, ", ".join('"%s"' % i for i in inner)))
+        # anything that touches the shared state other than through the one guard: calls of other
+        # methods of the wrapper (each takes the lock again), non-blocking or owned lock variants,
+        # clones of the Arc, and a guard dropped by hand
+        other = len(re.findall(r"\bself\s*\.\s*[a-z_]\w*\s*\(", body)) + len(re.findall(r"\b(?:try_lock|lock_arc|lock_blocking|try_lock_arc)\b", body)) \
+            + len(re.findall(r"\bself\s*\.\s*0\s*\.\s*clone\b", body)) + len(re.findall(r"\bdrop\s*\(", body)) + len(re.findall(r"\bspawn\w*\s*\(", body))
+        extra.append('("%s", %d)' % (name, other))
     put("shared_methods", "[" + ", ".join(rows) + "]" if rows else None)
+    put("shared_other_access", "[" + ", ".join(extra) + "]" if extra else None)
 
     # ---- previous values for missing anchors
     prev = {}
@@ -288,6 +296,8 @@ def main():
             return "Bool"
         if re.fullmatch(r"\d+", v):
             return "Nat"
+        if re.match(r'\[\("\w+", \d+\)', v):
+            return "List (String × Nat)"
         if v.startswith('[("'):
             return "List (String × Nat × Nat × List String)"
         if v.startswith("[(("):
